@@ -6,6 +6,7 @@
 namespace vf
 {
 char g_case_desc[512] = "none";
+Routes g_routes;
 namespace
 {
 std::map<std::pair<int, int>, SplineFactory> &splineReg()
